@@ -91,20 +91,16 @@ theorem hist_never_sent_twice (B : Nat) (recs : List (List Nat)) (answers : List
   simp only [s] at h2 ⊢
   omega
 
-/-- a schedule of scheduler grants (the CAS of `clear_with` shares the grant of its tail load: there is no yield
-    point between them in bucket.rs) is the schedule `fineSched` of single steps: what the driver evaluates is a
-    `run` of the step machine -/
-theorem foldl_grant_eq_run (sched : List Nat) : ∀ s : Sys, sched.foldl grant s = run s (fineSched s sched) := by
+/-- a schedule of scheduler grants is that very schedule of single steps (one grant = one model step: the detaching
+    CAS of `clear_with` has its own yield point `bkt.clear.cas` in bucket.rs): what the driver evaluates is a `run` of
+    the step machine -/
+theorem foldl_grant_eq_run (sched : List Nat) : ∀ s : Sys, sched.foldl grant s = run s sched := by
   induction sched with
   | nil => intro s; rfl
   | cons tid r ih =>
     intro s
-    simp only [List.foldl_cons, fineSched, grant]
-    split
-    · split
-      · simp only [run, List.foldl_cons]; exact ih _
-      · simp only [run, List.foldl_cons]; exact ih _
-    · simp only [run, List.foldl_cons]; exact ih _
+    simp only [List.foldl_cons, run, grant]
+    exact ih _
 
 /-- the same for the runs the correspondence stream replays (schedules of grants) -/
 theorem hist_never_sent_twice_grants (B : Nat) (recs : List (List Nat)) (answers : List Bool) (sched : List Nat)
